@@ -7,10 +7,16 @@ package main
 // [list lev]:
 //   - calls of mu.Lock / mu.Unlock / mu.RLock / mu.RUnlock on the receiver
 //     (deferred ones as LDefer..),
-//   - reads and writes of the receiver's other fields (c.table, c.cap,
-//     c.root, s.stats, s.Cache), where a write is an assignment, ++/--,
-//     delete(...) or passing the field to a package-level helper
-//     (remove, insertAfter),
+//   - reads and writes of the shared state, each tagged with the field it
+//     touches: FTable (c.table and map-typed aliases of it), FList (c.root),
+//     FNode (anything reached through a local or parameter of type *node -
+//     n := c.table[k]; n.b, n.prev.next - i.e. aliases of list/map nodes are
+//     resolved by their static type), FCap, FStats, FInner (s.Cache).
+//     A write is an assignment, ++/--, delete(...); the package-level helpers
+//     remove and insertAfter are inlined (LCall) and walked with the same
+//     rules, so their link updates appear as FNode/FTable writes. A local
+//     that is derived from shared state and has a reference type the emitter
+//     does not know (not *node, not a map) aborts the generator,
 //   - calls of other methods of the same receiver, with the callee's skeleton
 //     inlined (LCall), calls through a field into another object (LOuter),
 //   - return statements, and the nesting of if / for bodies.
@@ -31,9 +37,105 @@ func init() {
 
 type c14sk struct {
 	p     *pkgInfo
-	recv  string // receiver identifier in the current method
+	recv  string // receiver identifier in the current method ("" inside a helper)
 	rtype string
 	depth int
+}
+
+// identKind classifies a local identifier by its static type: "node" for
+// *node / node (an alias of a list or map node), "table" for a map (an alias
+// of the table), "" for values that are not cache state (integers, booleans,
+// bgzf.Block values), "?" for reference types the emitter does not know.
+func (s *c14sk) identKind(id *ast.Ident) string {
+	if id.Name == "_" || id.Name == "nil" || id.Name == "true" || id.Name == "false" {
+		return ""
+	}
+	obj := s.p.info.Uses[id]
+	if obj == nil {
+		obj = s.p.info.Defs[id]
+	}
+	if obj == nil || obj.Type() == nil {
+		return ""
+	}
+	t := obj.Type().String()
+	t = strings.ReplaceAll(t, "github.com/biogo/hts/bgzf/cache.", "")
+	switch {
+	case t == "*node" || t == "node":
+		return "node"
+	case strings.HasPrefix(t, "map["):
+		return "table"
+	case strings.HasPrefix(t, "*LRU") || strings.HasPrefix(t, "*FIFO") || strings.HasPrefix(t, "*Random") || strings.HasPrefix(t, "*StatsRecorder"):
+		return "recv"
+	case strings.HasPrefix(t, "*") || strings.HasPrefix(t, "[]") || strings.HasPrefix(t, "chan ") || strings.HasPrefix(t, "func("):
+		return "?"
+	}
+	return ""
+}
+
+var c14FieldOf = map[string]string{"table": "FTable", "root": "FList", "cap": "FCap", "stats": "FStats", "Cache": "FInner"}
+
+// shared returns the shared field that the path expression e reaches
+// (c.table[k] -> FTable, s.stats.Gets -> FStats, &c.root -> FList,
+// n.prev.next with n of type *node -> FNode), or "".
+func (s *c14sk) shared(e ast.Expr) string {
+	for {
+		switch x := e.(type) {
+		case *ast.ParenExpr:
+			e = x.X
+		case *ast.IndexExpr:
+			e = x.X
+		case *ast.StarExpr:
+			e = x.X
+		case *ast.UnaryExpr:
+			e = x.X
+		case *ast.SelectorExpr:
+			if s.isRecv(x.X) {
+				if x.Sel.Name == "mu" {
+					return ""
+				}
+				f := c14FieldOf[x.Sel.Name]
+				if f == "" {
+					s.fail(e, "receiver field %s is not classified", x.Sel.Name)
+				}
+				return f
+			}
+			e = x.X
+		case *ast.Ident:
+			switch s.identKind(x) {
+			case "node":
+				return "FNode"
+			case "table":
+				return "FTable"
+			case "?":
+				s.fail(e, "local %s has a reference type the skeleton does not track", x.Name)
+			}
+			return ""
+		default:
+			return ""
+		}
+	}
+}
+
+// indices returns the events of the index sub-expressions of a path.
+func (s *c14sk) indices(e ast.Expr) []string {
+	var ev []string
+	for {
+		switch x := e.(type) {
+		case *ast.ParenExpr:
+			e = x.X
+		case *ast.IndexExpr:
+			ev = append(ev, s.expr(x.Index)...)
+			e = x.X
+		case *ast.StarExpr:
+			e = x.X
+		case *ast.UnaryExpr:
+			e = x.X
+		case *ast.SelectorExpr:
+			e = x.X
+		default:
+			return ev
+		}
+	}
 }
 
 func (p *pkgInfo) methodsOf(rtype string) []*ast.FuncDecl {
@@ -77,53 +179,39 @@ func (s *c14sk) isRecv(e ast.Expr) bool {
 	return ok && id.Name == s.recv
 }
 
-// rootField returns the receiver field at the root of e (c.table[k] -> table,
-// s.stats.Gets -> stats, &c.root -> root), or "".
-func (s *c14sk) rootField(e ast.Expr) string {
-	for {
-		switch x := e.(type) {
-		case *ast.ParenExpr:
-			e = x.X
-		case *ast.IndexExpr:
-			e = x.X
-		case *ast.StarExpr:
-			e = x.X
-		case *ast.UnaryExpr:
-			e = x.X
-		case *ast.SelectorExpr:
-			if s.isRecv(x.X) {
-				return x.Sel.Name
-			}
-			e = x.X
-		default:
-			return ""
-		}
-	}
-}
-
 // expr returns the events of evaluating e.
 func (s *c14sk) expr(e ast.Expr) []string {
 	var ev []string
 	switch x := e.(type) {
 	case nil:
-	case *ast.Ident, *ast.BasicLit:
+	case *ast.BasicLit:
+	case *ast.Ident:
+		// a bare alias (n, passed or compared) is not an access to what it points to
+		if s.identKind(x) == "?" {
+			s.fail(e, "local %s has a reference type the skeleton does not track", x.Name)
+		}
 	case *ast.ParenExpr:
 		ev = s.expr(x.X)
-	case *ast.SelectorExpr:
-		if s.isRecv(x.X) {
-			if x.Sel.Name == "mu" {
-				s.fail(e, "mutex used other than by Lock/Unlock/RLock/RUnlock")
-			}
-			ev = append(ev, "LRead")
-		} else {
-			ev = s.expr(x.X)
+	case *ast.SelectorExpr, *ast.IndexExpr, *ast.StarExpr, *ast.UnaryExpr:
+		if sel, ok := e.(*ast.SelectorExpr); ok && s.isRecv(sel.X) && sel.Sel.Name == "mu" {
+			s.fail(e, "mutex used other than by Lock/Unlock/RLock/RUnlock")
 		}
-	case *ast.IndexExpr:
-		ev = append(s.expr(x.X), s.expr(x.Index)...)
-	case *ast.StarExpr:
-		ev = s.expr(x.X)
-	case *ast.UnaryExpr:
-		ev = s.expr(x.X)
+		// one read per path expression (c.root.prev.b, n.b, c.table[k]),
+		// plus whatever its index expressions evaluate
+		if f := s.shared(e); f != "" {
+			ev = append(s.indices(e), "LRead "+f)
+		} else {
+			switch y := e.(type) {
+			case *ast.SelectorExpr:
+				ev = s.expr(y.X)
+			case *ast.IndexExpr:
+				ev = append(s.expr(y.X), s.expr(y.Index)...)
+			case *ast.StarExpr:
+				ev = s.expr(y.X)
+			case *ast.UnaryExpr:
+				ev = s.expr(y.X)
+			}
+		}
 	case *ast.BinaryExpr:
 		ev = append(s.expr(x.X), s.expr(x.Y)...)
 	case *ast.CompositeLit:
@@ -179,10 +267,11 @@ func (s *c14sk) call(c *ast.CallExpr, deferred bool) []string {
 			return append(ev, "LCall "+c14list(sub.method(fd)))
 		}
 		// s.Cache.Get(base): through a field into another object
-		if fld := s.rootField(f.X); fld != "" {
-			return append(ev, "LRead", "LOuter")
+		if fld := s.shared(f.X); fld == "FInner" {
+			return append(ev, "LRead FInner", "LOuter")
 		}
-		// method of a local value (n.b.Base(), b.Used()): block methods, no cache state
+		// method of a value (n.b.Base(), b.Used(), c.root.prev.b...): a Block
+		// method; reaching the value may read cache state
 		return append(ev, s.expr(f.X)...)
 	case *ast.Ident:
 		if deferred {
@@ -195,16 +284,35 @@ func (s *c14sk) call(c *ast.CallExpr, deferred bool) []string {
 			}
 			return ev
 		}
-		// delete(c.table, k), remove(n, c.table), insertAfter(&c.root, n):
-		// helpers that mutate what they are given
+		if f.Name == "delete" {
+			if len(c.Args) != 2 || s.shared(c.Args[0]) == "" {
+				s.fail(c, "delete of something that is not shared state")
+			}
+			ev = append(ev, s.indices(c.Args[0])...)
+			ev = append(ev, s.expr(c.Args[1])...)
+			return append(ev, "LWrite "+s.shared(c.Args[0]))
+		}
+		// remove(n, c.table), insertAfter(&c.root, n): package-level helpers,
+		// inlined; inside, parameters of type *node / map are classified by type
 		for _, a := range c.Args {
-			if s.rootField(a) != "" {
-				ev = append(ev, "LWrite")
-			} else {
-				ev = append(ev, s.expr(a)...)
+			ev = append(ev, s.expr(a)...)
+		}
+		var fd *ast.FuncDecl
+		for _, file := range s.p.files {
+			for _, d := range file.Decls {
+				if g, ok := d.(*ast.FuncDecl); ok && g.Recv == nil && g.Name.Name == f.Name && g.Body != nil {
+					fd = g
+				}
 			}
 		}
-		return ev
+		if fd == nil {
+			s.fail(c, "call of unknown function %s", f.Name)
+		}
+		if s.depth > 4 {
+			s.fail(c, "recursion")
+		}
+		sub := &c14sk{p: s.p, rtype: s.rtype, depth: s.depth + 1}
+		return append(ev, "LCall "+c14list(sub.stmts(fd.Body.List)))
 	}
 	s.fail(c, "call %T", c.Fun)
 	return nil
@@ -231,19 +339,24 @@ func (s *c14sk) stmt(st ast.Stmt) []string {
 			ev = append(ev, s.expr(r)...)
 		}
 		for _, l := range x.Lhs {
-			if s.rootField(l) != "" {
-				if ix, ok := l.(*ast.IndexExpr); ok {
-					ev = append(ev, s.expr(ix.Index)...)
+			if f := s.shared(l); f != "" {
+				if _, bare := l.(*ast.Ident); bare {
+					continue // (re)binding an alias, not a write through it
 				}
-				ev = append(ev, "LWrite")
+				ev = append(ev, s.indices(l)...)
+				ev = append(ev, "LWrite "+f)
+			} else if id, ok := l.(*ast.Ident); ok {
+				if s.identKind(id) == "?" {
+					s.fail(l, "local %s has a reference type the skeleton does not track", id.Name)
+				}
 			} else if ix, ok := l.(*ast.IndexExpr); ok {
 				ev = append(ev, s.expr(ix.X)...)
 				ev = append(ev, s.expr(ix.Index)...)
 			}
 		}
 	case *ast.IncDecStmt:
-		if s.rootField(x.X) != "" {
-			ev = append(ev, "LRead", "LWrite")
+		if f := s.shared(x.X); f != "" {
+			ev = append(ev, "LRead "+f, "LWrite "+f)
 		}
 	case *ast.DeclStmt:
 		gd, ok := x.Decl.(*ast.GenDecl)
@@ -275,6 +388,11 @@ func (s *c14sk) stmt(st ast.Stmt) []string {
 		cond := append(s.expr(x.Cond), s.stmt(x.Post)...)
 		ev = append(ev, "LLoop "+c14list(cond)+" "+c14list(s.stmts(x.Body.List)))
 	case *ast.RangeStmt:
+		for _, kv := range []ast.Expr{x.Key, x.Value} {
+			if id, ok := kv.(*ast.Ident); ok && s.identKind(id) == "?" {
+				s.fail(kv, "range variable %s has a reference type the skeleton does not track", id.Name)
+			}
+		}
 		ev = append(ev, s.expr(x.X)...)
 		ev = append(ev, "LLoop [] "+c14list(s.stmts(x.Body.List)))
 	case *ast.LabeledStmt:
@@ -300,14 +418,15 @@ func emitC14Locks(w *bytes.Buffer) {
 	w.WriteString(`(* Lock skeletons of bgzf/cache/cache.go. One event per lock operation on the
    receiver's mutex, per read/write of the receiver's other fields, per call
    of another method of the same receiver (inlined) and per return. *)
+Inductive fld := FTable | FList | FNode | FCap | FStats | FInner.
 Inductive lev :=
 | LWLock | LWUnlock | LRLock | LRUnlock | LDeferWUnlock | LDeferRUnlock
-| LRead | LWrite | LRet | LOuter
+| LRead (f : fld) | LWrite (f : fld) | LRet | LOuter
 | LCall (body : list lev)
 | LIf (thn els : list lev)
 | LLoop (cond body : list lev).
 `)
-	var api []string
+	var api, cacheAPI, statsAPI, readers, writers []string
 	for _, rt := range []string{"LRU", "FIFO", "Random", "StatsRecorder"} {
 		ms := p.methodsOf(rt)
 		if len(ms) == 0 {
@@ -320,6 +439,19 @@ Inductive lev :=
 				p.fset.Position(fd.Pos()), rt, fd.Name.Name, name, c14list(s.method(fd)))
 			if fd.Name.IsExported() {
 				api = append(api, name)
+				if rt == "StatsRecorder" {
+					statsAPI = append(statsAPI, name)
+				} else {
+					cacheAPI = append(cacheAPI, name)
+					// the model's classification (Model/Cache.v, Proofs/CacheTop.v op_is_read):
+					// Len, Cap, Peek take the read lock; everything else writes
+					switch fd.Name.Name {
+					case "Len", "Cap", "Peek":
+						readers = append(readers, name)
+					default:
+						writers = append(writers, name)
+					}
+				}
 			}
 		}
 	}
@@ -329,4 +461,63 @@ Inductive lev :=
 		}
 	}
 	fmt.Fprintf(w, "\n(* the exported methods: the API whose calls must be atomic *)\nDefinition c14_api_locks : list (list lev) :=\n  %s.\n", c14list(api))
+	fmt.Fprintf(w, "\n(* exported methods of LRU, FIFO, Random / of StatsRecorder *)\nDefinition c14_cache_api_locks : list (list lev) :=\n  %s.\nDefinition c14_stats_api_locks : list (list lev) :=\n  %s.\n", c14list(cacheAPI), c14list(statsAPI))
+	fmt.Fprintf(w, "\n(* Len, Cap, Peek of the three caches (the model's read operations) / the other cache methods *)\nDefinition c14_reader_locks : list (list lev) :=\n  %s.\nDefinition c14_writer_locks : list (list lev) :=\n  %s.\n", c14list(readers), c14list(writers))
+
+	// Functions without receiver: constructors build objects nobody else has
+	// yet; any other function that touches shared state (remove, insertAfter)
+	// must be called only from methods of the four types or from such helpers,
+	// where the skeletons above inline it under the caller's lock.
+	types4 := map[string]bool{"LRU": true, "FIFO": true, "Random": true, "StatsRecorder": true}
+	helpers := map[string]bool{}
+	var helperNames []string
+	for _, file := range p.files {
+		for _, d := range file.Decls {
+			fd, ok := d.(*ast.FuncDecl)
+			if !ok || fd.Recv != nil || fd.Body == nil || strings.HasPrefix(fd.Name.Name, "New") {
+				continue
+			}
+			s := &c14sk{p: p}
+			evs := c14list(s.stmts(fd.Body.List))
+			if strings.Contains(evs, "LRead") || strings.Contains(evs, "LWrite") {
+				helpers[fd.Name.Name] = true
+				helperNames = append(helperNames, fd.Name.Name)
+			}
+		}
+	}
+	bad := 0
+	for _, file := range p.files {
+		for _, d := range file.Decls {
+			fd, ok := d.(*ast.FuncDecl)
+			if !ok || fd.Body == nil {
+				continue
+			}
+			inside := helpers[fd.Name.Name] && fd.Recv == nil
+			if fd.Recv != nil && len(fd.Recv.List) == 1 {
+				t := fd.Recv.List[0].Type
+				if st, ok := t.(*ast.StarExpr); ok {
+					t = st.X
+				}
+				if id, ok := t.(*ast.Ident); ok && types4[id.Name] {
+					inside = true
+				}
+			}
+			ast.Inspect(fd.Body, func(n ast.Node) bool {
+				if c, ok := n.(*ast.CallExpr); ok {
+					if id, ok := c.Fun.(*ast.Ident); ok && helpers[id.Name] && !inside {
+						bad++
+					}
+				}
+				if _, ok := n.(*ast.FuncLit); ok && inside {
+					bad++ // a closure could escape the critical section
+				}
+				if _, ok := n.(*ast.GoStmt); ok && inside {
+					bad++
+				}
+				return true
+			})
+		}
+	}
+	fmt.Fprintf(w, "\n(* lock-free helpers that touch shared state: %s; calls of them from outside the methods\n   of the four types (or closures / go statements inside those methods) *)\nDefinition c14_helper_count : Z := %d.\nDefinition c14_unlocked_entry_points : Z := %d.\n",
+		strings.Join(helperNames, ", "), len(helperNames), bad)
 }
